@@ -449,11 +449,18 @@ def make_fake_redis(schedule, is_async):
                         schedule['subscribe_failures'].pop(0):
                     raise FakeRedisError('subscribe failed')
                 state['sub_ok'] += 1
+                state['current'] = self
 
             async def unsubscribe(self, ch):
                 pass
 
             async def listen(self):
+                if state.get('current') is not self:
+                    # an abandoned connection stays dead
+                    state['dead_listens'] = state.get('dead_listens', 0) + 1
+                    if state['dead_listens'] > 50:
+                        raise EndOfPlan()
+                    raise FakeRedisError('connection is closed')
                 items = self._items()
                 if items is None:
                     raise EndOfPlan()
@@ -471,11 +478,17 @@ def make_fake_redis(schedule, is_async):
                         schedule['subscribe_failures'].pop(0):
                     raise FakeRedisError('subscribe failed')
                 state['sub_ok'] += 1
+                state['current'] = self
 
             def unsubscribe(self, ch):
                 pass
 
             def listen(self):
+                if state.get('current') is not self:
+                    state['dead_listens'] = state.get('dead_listens', 0) + 1
+                    if state['dead_listens'] > 50:
+                        raise EndOfPlan()
+                    raise FakeRedisError('connection is closed')
                 items = self._items()
                 if items is None:
                     raise EndOfPlan()
@@ -668,6 +681,8 @@ def run(ctx):
     ctx.require('echoes_checked', 10)
     ctx.require('own_callback_completions', 5)
     ctx.require('raising_callbacks_exception', 5)
+    ctx.require('redis_sentinels_checked', 30)
+    ctx.require('redis_connection_drops', 5)
     ctx.require('raising_callbacks_cancelled', 5)
     ctx.require('listen_restarts', 5)
     ctx.require('redis_cases', 20)
@@ -681,7 +696,13 @@ def run(ctx):
             rng = ctx.case_rng(10**6 + j)
             redis_case(ctx, rng, j % 2 == 1)
             j += 1
+        if k % 10 == 0:
+            from checks import c15_redis
+            c15_redis.redis_host_case(ctx, k // 10)
 
 
 def replay(ctx, w):
+    if w['witness'].get('part') == 'redis_host':
+        from checks import c15_redis
+        return c15_redis.redis_host_case(ctx, w['witness']['case_index'])
     run_case(ctx, w['witness']['case_index'])
